@@ -361,14 +361,17 @@ def run_adjust(h: dict, wall_limit: float = 30.0) -> dict:
 
         spawned: list[dict] = []
         cancelled: list[int] = []
+        diers: dict = {}
 
         async def stub_watcher(*, namespace: Any, resource: Any, settings: Any, processor: Any,
                                operator_paused: Any = None, operator_indexed: Any = None,
                                resource_indexed: Any = None) -> None:
             me = {"resource": resource.plural, "namespace": namespace, "indexed": resource_indexed is not None}
             spawned.append(me)
+            die = asyncio.Event()
+            diers[(resource.plural, namespace)] = die
             try:
-                await asyncio.Event().wait()
+                await die.wait()       # set by the harness: the task exits on its own (as after an HTTP 404)
             finally:
                 cancelled.append(id(me))
 
@@ -399,6 +402,14 @@ def run_adjust(h: dict, wall_limit: float = 30.0) -> dict:
             rows = []
             prev: dict = {}
             for st in h["steps"]:
+                if "die" in st:
+                    for name, ns in st["die"]:
+                        ev = diers.get((name, ns))
+                        if ev is not None:
+                            ev.set()
+                    for _ in range(5):
+                        await asyncio.sleep(0)
+                    continue
                 insights.watched_resources.clear()
                 insights.watched_resources.update(mkres(r) for r in st["watched"])
                 insights.indexed_resources.clear()
